@@ -8,7 +8,7 @@ use async_std::io::{prelude::SeekExt, Cursor, Read, Seek, SeekFrom, Write};
 use async_std::sync::{Arc, RwLock};
 use async_trait::async_trait;
 use futures::task::{Context, Poll};
-use futures::{Stream, StreamExt};
+use futures::Stream;
 use std::collections::hash_map::Entry;
 use std::collections::HashMap;
 use std::fmt;
@@ -37,15 +37,6 @@ impl AsyncMemoryFS {
         }
     }
 
-    async fn ensure_has_parent(&self, path: &str) -> VfsResult<()> {
-        let separator = path.rfind('/');
-        if let Some(index) = separator {
-            if self.exists(&path[..index]).await? {
-                return Ok(());
-            }
-        }
-        Err(VfsErrorKind::Other("Parent path does not exist".into()).into())
-    }
 }
 
 impl Default for AsyncMemoryFS {
@@ -93,7 +84,13 @@ impl Drop for AsyncWritableFile {
     fn drop(&mut self) {
         let mut content = vec![];
         swap(&mut content, self.content.get_mut());
-        futures::executor::block_on(self.fs.write()).files.insert(
+        let mut handle = futures::executor::block_on(self.fs.write());
+        match handle.files.get(&self.destination) {
+            Some(file) if file.file_type == VfsFileType::File => {}
+            // The file was removed (or replaced by a directory) while this handle was open.
+            _ => return,
+        }
+        handle.files.insert(
             self.destination.clone(),
             AsyncMemoryFile {
                 file_type: VfsFileType::File,
@@ -123,9 +120,9 @@ impl Read for AsyncReadableFile {
         buf: &mut [u8],
     ) -> Poll<Result<usize, async_std::io::Error>> {
         let this = self.get_mut();
-        let bytes_left = this.len() - this.cursor_pos;
+        let bytes_left = this.len().saturating_sub(this.cursor_pos);
         let bytes_read = std::cmp::min(buf.len() as u64, bytes_left);
-        if bytes_left == 0 {
+        if bytes_read == 0 {
             return Poll::Ready(Ok(0));
         }
         buf[..bytes_read as usize].copy_from_slice(
@@ -143,19 +140,28 @@ impl Seek for AsyncReadableFile {
         pos: SeekFrom,
     ) -> Poll<Result<u64, async_std::io::Error>> {
         let this = self.get_mut();
-        let new_pos = match pos {
-            SeekFrom::Start(offset) => offset as i64,
-            SeekFrom::End(offset) => this.cursor_pos as i64 - offset,
-            SeekFrom::Current(offset) => this.cursor_pos as i64 + offset,
+        let (base, offset) = match pos {
+            SeekFrom::Start(offset) => {
+                this.cursor_pos = offset;
+                return Poll::Ready(Ok(offset));
+            }
+            SeekFrom::End(offset) => (this.len(), offset),
+            SeekFrom::Current(offset) => (this.cursor_pos, offset),
         };
-        if new_pos < 0 || new_pos >= this.len() as i64 {
-            Poll::Ready(Err(async_std::io::Error::new(
-                async_std::io::ErrorKind::InvalidData,
-                "Requested offset is outside the file!",
-            )))
+        let new_pos = if offset >= 0 {
+            base.checked_add(offset as u64)
         } else {
-            this.cursor_pos = new_pos as u64;
-            Poll::Ready(Ok(new_pos as u64))
+            base.checked_sub(offset.unsigned_abs())
+        };
+        match new_pos {
+            Some(new_pos) => {
+                this.cursor_pos = new_pos;
+                Poll::Ready(Ok(new_pos))
+            }
+            None => Poll::Ready(Err(async_std::io::Error::new(
+                async_std::io::ErrorKind::InvalidInput,
+                "invalid seek to a negative or overflowing position",
+            ))),
         }
     }
 }
@@ -166,35 +172,16 @@ impl AsyncFileSystem for AsyncMemoryFS {
         &self,
         path: &str,
     ) -> VfsResult<Box<dyn Unpin + Stream<Item = String> + Send>> {
-        let prefix = format!("{}/", path);
         let handle = self.handle.read().await;
-        let mut found_directory = false;
-        #[allow(clippy::needless_collect)] // need collect to satisfy lifetime requirements
-        let entries: Vec<String> = handle
-            .files
-            .iter()
-            .filter_map(|(candidate_path, _)| {
-                if candidate_path == path {
-                    found_directory = true;
-                }
-                if candidate_path.starts_with(&prefix) {
-                    let rest = &candidate_path[prefix.len()..];
-                    if !rest.contains('/') {
-                        return Some(rest.to_string());
-                    }
-                }
-                None
-            })
-            .collect();
-        if !found_directory {
-            return Err(VfsErrorKind::FileNotFound.into());
-        }
+        let entries = handle.list(path)?;
         Ok(Box::new(futures::stream::iter(entries)))
     }
 
     async fn create_dir(&self, path: &str) -> VfsResult<()> {
-        self.ensure_has_parent(path).await?;
-        let map = &mut self.handle.write().await.files;
+        // check and insert under one lock, so that the parent cannot vanish in between
+        let mut handle = self.handle.write().await;
+        handle.ensure_has_parent(path)?;
+        let map = &mut handle.files;
         let entry = map.entry(path.to_string());
         match entry {
             Entry::Occupied(file) => {
@@ -227,15 +214,20 @@ impl AsyncFileSystem for AsyncMemoryFS {
     }
 
     async fn create_file(&self, path: &str) -> VfsResult<Box<dyn Write + Send + Unpin>> {
-        self.ensure_has_parent(path).await?;
         let content = Arc::new(Vec::<u8>::new());
-        self.handle.write().await.files.insert(
+        let mut handle = self.handle.write().await;
+        handle.ensure_has_parent(path)?;
+        if let Some(existing) = handle.files.get(path) {
+            ensure_file(existing)?;
+        }
+        handle.files.insert(
             path.to_string(),
             AsyncMemoryFile {
                 file_type: VfsFileType::File,
                 content,
             },
         );
+        drop(handle);
         let writer = AsyncWritableFile {
             content: Cursor::new(vec![]),
             destination: path.to_string(),
@@ -247,6 +239,7 @@ impl AsyncFileSystem for AsyncMemoryFS {
     async fn append_file(&self, path: &str) -> VfsResult<Box<dyn Write + Send + Unpin>> {
         let handle = self.handle.write().await;
         let file = handle.files.get(path).ok_or(VfsErrorKind::FileNotFound)?;
+        ensure_file(file)?;
         let mut content = Cursor::new(file.content.as_ref().clone());
         content.seek(SeekFrom::End(0)).await?;
         let writer = AsyncWritableFile {
@@ -276,6 +269,8 @@ impl AsyncFileSystem for AsyncMemoryFS {
 
     async fn remove_file(&self, path: &str) -> VfsResult<()> {
         let mut handle = self.handle.write().await;
+        let file = handle.files.get(path).ok_or(VfsErrorKind::FileNotFound)?;
+        ensure_file(file)?;
         handle
             .files
             .remove(path)
@@ -284,10 +279,11 @@ impl AsyncFileSystem for AsyncMemoryFS {
     }
 
     async fn remove_dir(&self, path: &str) -> VfsResult<()> {
-        if self.read_dir(path).await?.next().await.is_some() {
+        // check and remove under one lock, so that no entry can appear in between
+        let mut handle = self.handle.write().await;
+        if !handle.list(path)?.is_empty() {
             return Err(VfsErrorKind::Other("Directory to remove is not empty".into()).into());
         }
-        let mut handle = self.handle.write().await;
         handle
             .files
             .remove(path)
@@ -313,6 +309,45 @@ impl AsyncMemoryFsImpl {
             },
         );
         Self { files }
+    }
+
+    fn ensure_has_parent(&self, path: &str) -> VfsResult<()> {
+        let separator = path.rfind('/');
+        if let Some(index) = separator {
+            return match self.files.get(&path[..index]) {
+                Some(parent) if parent.file_type == VfsFileType::Directory => Ok(()),
+                Some(_) => Err(VfsErrorKind::Other("Parent path is not a directory".into()).into()),
+                None => Err(VfsErrorKind::Other("Parent path does not exist".into()).into()),
+            };
+        }
+        Err(VfsErrorKind::Other("Parent path does not exist".into()).into())
+    }
+
+    /// The names of the entries of the directory at `path`
+    fn list(&self, path: &str) -> VfsResult<Vec<String>> {
+        let prefix = format!("{}/", path);
+        let mut found_directory = None;
+        let entries: Vec<String> = self
+            .files
+            .iter()
+            .filter_map(|(candidate_path, candidate)| {
+                if candidate_path == path {
+                    found_directory = Some(candidate.file_type);
+                }
+                if candidate_path.starts_with(&prefix) {
+                    let rest = &candidate_path[prefix.len()..];
+                    if !rest.contains('/') {
+                        return Some(rest.to_string());
+                    }
+                }
+                None
+            })
+            .collect();
+        match found_directory {
+            None => Err(VfsErrorKind::FileNotFound.into()),
+            Some(VfsFileType::File) => Err(VfsErrorKind::Other("Not a directory".into()).into()),
+            Some(VfsFileType::Directory) => Ok(entries),
+        }
     }
 }
 
